@@ -73,6 +73,17 @@ def run(repo, rep, tier):
     L.option_defaults_rule(repo, rep, "R10.1", ("implicit_i18n_translate",))
     L.option_forwarded_rule(repo, rep, "R10.1", ("implicit_i18n_attributes",))
     L.whitelist_rule(repo, rep, "R10.1", ("chameleon.i18n",))
+    # "what it returns is what appears in the output", for attributes too:
+    # after an attribute's value is computed nothing rewrites it (escaping
+    # happens inside the conversion, before the translation is applied)
+    va_ = repo.func(CC + "visit_Attribute")
+    res_ = L.emission(repo, va_.qualname)
+    rew = [A.show(it_, limit=2)[:60] for it_, c_ in A.flatten(res_.emission)
+           if isinstance(it_, A.Frag) and ".replace(" in str(it_.source)]
+    rep.check(not rew, "R10.3", va_.qualname, "the computed value of an "
+              "attribute is written as it is (no replacement of characters "
+              "after the translation)", construct="attribute-value-as-"
+              "computed", where=L.where(va_), detail="; ".join(rew))
     # the names in implicit_i18n_attributes are lower-case by contract:
     # the attribute's name is compared in lower case
     can = repo.func("chameleon.zpt.program.MacroProgram."
